@@ -1409,13 +1409,20 @@ impl ValidationCache {
         use self::verif::CacheInstant as Instant;
         let (ttl, cached) = self.inner.lock().get_mut(key)?.clone();
 
-        if Instant::now() < ttl {
+        let now = Instant::now();
+        if now < ttl {
             debug!(
                 name = ?context.key.name,
                 record_type = ?context.key.record_type,
                 "returning cached DNSSEC validation",
             );
-            Some(cached)
+            // The authenticated TTL was computed when the entry was inserted; it must keep
+            // counting down while the entry is served from the cache.
+            let remaining = u32::try_from((ttl - now).as_secs()).unwrap_or(u32::MAX);
+            Some(cached.map(|mut proof| {
+                proof.adjusted_ttl = proof.adjusted_ttl.map(|ttl| ttl.min(remaining));
+                proof
+            }))
         } else {
             debug!(
                 name = ?context.key.name,
@@ -1458,10 +1465,20 @@ impl ValidationCache {
             return;
         };
 
+        // A positive verdict must not outlive the signature it is based on: the authenticated TTL
+        // is already bounded by the RRSIG's remaining lifetime (RFC 4035 section 5.3.3).
+        let ttl = match &proof {
+            Ok(RrsetProof {
+                adjusted_ttl: Some(adjusted_ttl),
+                ..
+            }) => first_record.ttl.min(*adjusted_ttl),
+            _ => first_record.ttl,
+        };
+
         self.inner.lock().insert(
             key,
             (
-                Instant::now() + Duration::from_secs(first_record.ttl.into()).clamp(min, max),
+                Instant::now() + Duration::from_secs(ttl.into()).clamp(min, max),
                 proof.clone(),
             ),
         );
